@@ -739,7 +739,7 @@ func propC03(j *Job) {
 	}
 	for _, il := range []bool{false, true} {
 		for _, what := range []string{"stale-fwd", "abort"} {
-			j.Explore(fmt.Sprintf("AT/il%v/%s", il, what), ackTimerRaceScenario(il, what), Budget{D: 2}, nil)
+			j.Explore(fmt.Sprintf("AT/il%v/%s", il, what), ackTimerRaceScenario(il, what), Budget{D: map[bool]int{false: 2, true: 3}[j.Thorough()]}, nil)
 		}
 	}
 	bases := e2Bases()
